@@ -541,3 +541,27 @@ Print Assumptions C15_piflag_reachable_with_normalize.
 Print Assumptions C15_edited_roundtrip_reachable_with_normalize.
 Print Assumptions C15_edited_roundtrip_merged_reachable_with_normalize.
 Print Assumptions C15_normalize_example.
+
+(** ** [normalize] does not change what the document says (builder-normalize2; see Properties/C13.v, section
+    "functional specification of [normalize]")
+
+    The serialisation ([Store.show] = [Display] of the node) of every node that is no Text node -- in particular of
+    the document -- is the same before and after [normalize], in every world with the tree invariant, both views.
+    (A Text node that took the data of its followers prints more than before; the followers are no longer in
+    the tree.) *)
+From XmlRs Require Import Proofs.DomOpsInv Proofs.DomNormalizeC12 Proofs.DomNormalizeSpec.
+
+Theorem C15_normalize_show_unchanged : forall merged w r s s', WInv w -> doc_at w (fst r) = Some s ->
+  doc_at (fst (normalize merged w r)) (fst r) = Some s' ->
+  (forall n, has_kind s KTx n = false -> show s' n = show s n) /\ show_doc s' = show_doc s.
+Proof. exact normalize_show. Qed.
+
+(** non-trivial instance: see [C13_normalize_spec_example] (a nested element with three Text nodes merged into one and a
+    refused pair); here: the serialisation of that document is the same before and after *)
+Example C15_normalize_show_example :
+  show_doc (store0 (fst (normalize false nz_before (0, 2)))) = show_doc (store0 nz_before)
+  /\ children_of (store0 (fst (normalize false nz_before (0, 2)))) 3 <> children_of (store0 nz_before) 3.
+Proof. exact nz_show_example. Qed.
+
+Print Assumptions C15_normalize_show_unchanged.
+Print Assumptions C15_normalize_show_example.
